@@ -105,13 +105,22 @@ fn run_mode(ctx: &mut Ctx, mode: Mode) {
         // raw libfunc instantiations over edge types (no front end): C02 only speaks about audited libfuncs
         snips.extend(crate::exec::inst_snippets(tier, mode == Mode::Vm));
     }
-    let cfgs = cfgs_for(mode, tier);
-    let mut dbs = Dbs::default();
+    let all_cfgs = cfgs_for(mode, tier);
+    // A compiler database per front-end configuration costs ~100 MB; the 88-point lattice does not fit a worker's
+    // address-space cap at once. It is explored in chunks of 8 configurations, each together with the baseline
+    // configuration (first in the list); the databases of a chunk are dropped when the next chunk starts.
+    let cfg_chunks: Vec<Vec<Cfg>> = if all_cfgs.len() > 12 {
+        all_cfgs[1..].chunks(8).map(|c| std::iter::once(all_cfgs[0]).chain(c.iter().copied()).collect()).collect()
+    } else {
+        vec![all_cfgs.clone()]
+    };
     let small = tier == Tier::Quick;
     let (max_params, max_vectors) = tier.pick((3usize, 64usize), (3, 400));
+    for (chunk_i, cfgs) in cfg_chunks.iter().enumerate() {
+    let mut dbs = Dbs::default();
     for snip in &snips {
         ctx.case(
-            || json!({"space":"snippets","snippet":snip.name}),
+            || json!({"space":"snippets","snippet":snip.name,"config_chunk":chunk_i}),
             |ctx| {
                 ctx.count("snippets", 1);
                 // results[function][input index] = value under the baseline configuration
@@ -169,7 +178,7 @@ fn run_mode(ctx: &mut Ctx, mode: Mode) {
                         }
                         let small_here = small && !snip.name.starts_with("hintx:");
                         let Some(inputs) = input_vectors(&prog, func, small_here, max_params, max_vectors) else {
-                            if cfg_i == 0 {
+                            if cfg_i == 0 && chunk_i == 0 {
                                 ctx.count("functions_skipped_non_scalar_params", 1);
                                 if std::env::var("VERIF_LIST_SKIPPED").is_ok() {
                                     eprintln!("SKIPPED {} {} {:?}", snip.name, name, user_params(func));
@@ -177,7 +186,7 @@ fn run_mode(ctx: &mut Ctx, mode: Mode) {
                             }
                             continue;
                         };
-                        if cfg_i == 0 {
+                        if cfg_i == 0 && chunk_i == 0 {
                             ctx.count("functions", 1);
                         }
                         let required = compiled.runner.initial_required_gas(func).unwrap_or(0);
@@ -251,7 +260,7 @@ fn run_mode(ctx: &mut Ctx, mode: Mode) {
                                     if obs.is_none() && v.is_some() {
                                         ctx.count("results_not_canonicalisable", 1);
                                     }
-                                    if cfg_i == 0 {
+                                    if cfg_i == 0 && chunk_i == 0 {
                                         base.push(obs);
                                     } else if let (Some(Some(b)), Some(o)) = (base.get(ii), &obs) {
                                         ctx.count("differential_comparisons", 1);
@@ -276,6 +285,7 @@ fn run_mode(ctx: &mut Ctx, mode: Mode) {
                 }
             },
         );
+    }
     }
 }
 
